@@ -1,4 +1,5 @@
 import GeomV.C20.Spec
+import GeomV.C20.ParseAgree
 import GeomV.C20.Agree.Geog
 import GeomV.C20.Agree.Merc
 import GeomV.C20.Agree.Lcc
@@ -177,21 +178,13 @@ theorem C20_noshift_datum_differs :
 /-! ## parse agreement -/
 
 /-
-FULL STATEMENT (not proved in this generality):
-
-  theorem C20_parse_agree (c : Crs) (st : Style) (h : wellFormed c = true) : agree c st = true
-
-i.e. for every well-formed description, in every spelling, `parse (toProj4 c st)` and
-`parse (toWkt c st)` both succeed and every field a transformer reads (projection up to the alias
-table, Lat0/1/2, Long0, K0, X0/Y0 in metres, A, B, Rf, Es, Ep2, sphere, ToMeter, axis, datum type,
-datum parameters, datum ellipsoid) equals `expected c` as an exact rational.  What is missing is the
-symbolic string-level reasoning (splitting on '+', '=', ',', brackets; `parseFloat (renderDec d)`)
-for arbitrary numerals.  What is proved: the statement for ALL kinds x ALL units x ALL datum flavours
-x ALL spelling switches x the clause-ORDER switches (UNIT first / between / last, PROJECTION last, GEOGCS last,
-TOWGS84 before SPHEROID, AUTHORITY first) x near-miss datum names (WGS_1972, WGS_1984_Variant) on one family of generic, pairwise distinct, non-round numbers (so that a
-mis-mapped PARAMETER name, a missed unit conversion of the false origin, a wrong alias or a wrong
-datum decision makes the kernel reject the proof), and `agree c st` is evaluated in exact arithmetic
-by the judge on every generated well-formed case (DIFF when false).
+The full statement
+  theorem C20_parse_agree (c : Crs) (st : Style) (hw : wellFormed c = true) (hst : styleOK st = true)
+      (hn : numeralsRead c = true) : agree c st = true
+is PROVED in `ParseAgree.lean` (imported above) for all descriptions, spellings and clause orders, at string
+level, with the numeral contract `numeralsRead c` as its only extra hypothesis; `C20_parse_agree_tokens`,
+`C20_lex_proj4`, `C20_lex_wkt` are its token-level and lexer parts.  The kernel-checked finite family below
+is kept as a set of worked examples (it needs no numeral hypothesis: the kernel evaluates the numerals).
 -/
 
 /-- **C20_parse_agree_partial** — PROJ.4 and WKT of the same description parse to the same exact
@@ -216,27 +209,13 @@ example : isView (parse (toWkt (sample .lcc .metre 0) {})) (expected { sample .l
 
 /-! ## PARAMETER names and the unit of the false origin, for ALL numerals -/
 
-theorem splitOn_nosep (c : Char) : ∀ v : Str, c ∉ v → splitOn c v = [v]
-  | [], _ => rfl
-  | x :: r, h => by
-    have hx : x ≠ c := fun e => h (by simp [e])
-    have hr : c ∉ r := fun e => h (by simp [e])
-    simp [splitOn, hx, splitOn_nosep c r hr]
-
-theorem splitOn_lit (c : Char) (v : Str) (hv : c ∉ v) : ∀ lit : Str, c ∉ lit → splitOn c (lit ++ c :: v) = [lit, v]
-  | [], _ => by simp [splitOn, splitOn_nosep c v hv]
-  | x :: r, h => by
-    have hx : x ≠ c := fun e => h (by simp [e])
-    have hr : c ∉ r := fun e => h (by simp [e])
-    simp [splitOn, hx, splitOn_lit c v hv r hr]
-
 /-- a `PARAMETER["name",value]` section is read as: the lower-cased unquoted name selects the field,
 the value text is trimmed and parsed -/
 theorem param_apply (sr : SR XR) (lit v name : Str) (x : XR) (hl : ',' ∉ lit) (hv : ',' ∉ v)
     (hx : parseFloat (α := XR) (trimSpace v) = .ok x) (hn : trim isQuote (toLower lit) = name) :
     parseWKTParameter sr (lit ++ ',' :: v) = paramSet sr name x := by
   unfold parseWKTParameter
-  simp [splitOn_lit ',' v hv lit hl, hx, hn]
+  simp [splitOn_append_sep ',' v lit hl, splitOn_nosep ',' v hv, hx, hn]
 
 /-- **C20_wkt_parameter_map** — for every value text `v` (no comma) that `ParseFloat` reads as `x`,
 each PARAMETER name the renderers use — OGC lower case or ESRI capitalised — writes exactly the
